@@ -109,6 +109,27 @@ for nm, m in (("f2_shrink_null_m1_1k", 1), ("f2_grow_null_m1_1k", 1), ("f2_grow_
       bounds={"chunk_usable_bytes": "16..1024 (symbolic)", "allocator": "A-null (refuses everything)", "limit": "any Option<usize>", "unwind": 6})
 
 
+# ---------------------------------------------------------------------------
+# F4 slow-decide (full-width magnitudes, A-null)
+# ---------------------------------------------------------------------------
+F4_FUNCS = ["Bump::alloc_layout_slow", "Bump::allocation_limit_remaining", "Bump::chunk_fits_under_limit",
+            "Bump::new_chunk_memory_details", "Bump::new_chunk (up to the refused global-allocator call)"]
+for m in (1, 8, 16):
+    H("f4_decide_m%d" % m, "__verif::f4", "F4", quick=["C07", "C18"] + (["C09"] if m == 1 else []), thorough=["C07", "C09", "C18", "C19"],
+      timeout=1200, cost=80, stubs=STUB_NULL, inst="Bump<%d>" % m, funcs=F4_FUNCS, unwind_is_claim=True,
+      bounds={"current_chunk_usable": "16..2^56, multiple of 16", "held_bytes": "usable..2^57", "limit": "any Option<usize>",
+              "request": "any valid Layout, align <= 4096", "halvings": "<= 5 (ratio 2*usable/max(size,448) < 32)", "unwind": 8,
+              "allocator": "A-null"})
+    H("f4_fresh_m%d" % m, "__verif::f4", "F4", quick=["C07", "C09"] if m == 1 else [], thorough=["C07", "C09", "C18"],
+      timeout=1200, cost=60, stubs=STUB_NULL, inst="Bump<%d>" % m, funcs=F4_FUNCS, unwind_is_claim=True,
+      bounds={"arena": "chunk-less (static sentinel)", "limit": "any Option<usize>", "request_size": "1..4096", "request_align": "<= 4096",
+              "unwind": 16, "allocator": "A-null"})
+    H("f4_fresh_zst_m%d" % m, "__verif::f4", "F4", quick=["C09"] if m == 1 else [], thorough=["C07", "C09"],
+      timeout=1200, cost=60, stubs=STUB_NULL, inst="Bump<%d>" % m, funcs=F4_FUNCS, unwind_is_claim=True,
+      bounds={"arena": "chunk-less (static sentinel)", "limit": "any Option<usize>", "request_size": "0", "request_align": "<= 4096",
+              "unwind": 16, "allocator": "A-null"})
+
+
 def by_name(n):
     for h in ALL:
         if h.name == n:
